@@ -8,14 +8,24 @@ import (
 	"flag"
 	"fmt"
 	"os"
+	"runtime/pprof"
 	"strconv"
 	"strings"
+	"syscall"
 	"time"
 
 	"symgo/interp"
 )
 
 func main() {
+	// The sandbox makes first-touch page faults expensive: keep stacks and freed
+	// heap pages mapped instead of returning and re-faulting them.
+	if os.Getenv("SYMGO_REEXEC") == "" {
+		env := append(os.Environ(), "SYMGO_REEXEC=1", "GODEBUG=gcshrinkstackoff=1,madvdontneed=0")
+		if exe, err := os.Executable(); err == nil {
+			syscall.Exec(exe, os.Args, env)
+		}
+	}
 	if len(os.Args) < 2 || os.Args[1] != "run" {
 		fmt.Fprintln(os.Stderr, "usage: symgo run [flags]")
 		os.Exit(2)
@@ -39,6 +49,9 @@ func main() {
 	overlay := fs.String("overlay", "", "virtual=real,... overlay files")
 	tags := fs.String("tags", "", "build tags")
 	maxDepth := fs.Int("maxdepth", 2000, "max call depth")
+	noFD := fs.Bool("nofd", false, "disable the finite-domain fast path")
+	crossFD := fs.Int("crossfd", 1021, "cross-check every n-th finite-domain verdict against the SMT solver")
+	cpuprof := fs.String("cpuprofile", "", "write a CPU profile")
 	stopOnViol := fs.Bool("stoponviolation", false, "stop at the first violation")
 	fs.Parse(os.Args[2:])
 
@@ -63,6 +76,15 @@ func main() {
 		fatal(err)
 	}
 	fmt.Fprintf(os.Stderr, "loaded in %.1fs\n", time.Since(t0).Seconds())
+	if *cpuprof != "" {
+		f, err := os.Create(*cpuprof)
+		if err != nil {
+			fatal(err)
+		}
+		pprof.StartCPUProfile(f)
+		defer pprof.StopCPUProfile()
+	}
+
 	pm := map[string]int64{}
 	if *params != "" {
 		for _, kv := range strings.Split(*params, ",") {
@@ -78,14 +100,14 @@ func main() {
 	for _, h := range strings.Split(*harness, ",") {
 		cfg := interp.Config{Harness: h, Setup: *setup, Workers: *workers, StepBudget: *budget, MaxPaths: *maxPaths,
 			WallLimit: *wall, Solver: *solver, SymbolicMapOrder: *mapOrder, MaxPreemptions: *preempt, MaxThreads: *threads,
-			Params: pm, Trace: *trace, MaxDepth: *maxDepth, StopOnViolation: *stopOnViol}
+			Params: pm, Trace: *trace, MaxDepth: *maxDepth, StopOnViolation: *stopOnViol, NoFD: *noFD, CrossCheckFD: *crossFD}
 		res, err := interp.Explore(prog, cfg)
 		if err != nil {
 			fatal(err)
 		}
 		all[h] = res
 		fmt.Fprintf(os.Stderr, "%s: paths=%d outcomes=%v decisions=%d queries(unsat/sat/unknown)=%v solver=%.1fs wall=%.1fs violations=%d exhaustive=%v\n",
-			h, res.Stats.Paths, res.Outcomes, res.Stats.Decisions, res.Queries, res.SolverTime.Seconds(), res.Wall.Seconds(), len(res.Violations), res.Exhaustive)
+			h, res.Stats.Paths, res.Outcomes, res.Stats.Decisions, fmt.Sprint(res.Queries, " fd(sat/unsat/xchk/mismatch)=", res.Stats.FDSat, res.Stats.FDUnsat, res.Stats.FDCrossChecked, res.Stats.FDMismatch), res.SolverTime.Seconds(), res.Wall.Seconds(), len(res.Violations), res.Exhaustive)
 		for k, v := range res.Inconclusive {
 			fmt.Fprintf(os.Stderr, "  inconclusive %dx %s\n", v, k)
 		}
